@@ -547,3 +547,511 @@ Proof.
     + intros [H|H]; [right; left; subst; reflexivity|left; exact H].
     + intros [H|[H|[]]]; [right; exact H|left; injection H as ->; reflexivity].
 Qed.
+
+(* ------------------------------------------------------------------ monitors over histories *)
+
+Lemma anyb_snoc : forall bad h s e,
+  anyb bad s (h ++ [e]) = anyb bad s h || bad (fold_left step h s) e.
+Proof.
+  intros bad h. induction h as [|x t IH]; intros s e; cbn [app anyb fold_left].
+  - rewrite orb_false_r. reflexivity.
+  - rewrite IH, orb_assoc. reflexivity.
+Qed.
+
+Lemma anyb_snoc_false : forall bad h e,
+  anyb bad init (h ++ [e]) = false -> anyb bad init h = false /\ bad (run h) e = false.
+Proof. intros bad h e H. rewrite anyb_snoc in H. apply orb_false_elim in H. exact H. Qed.
+
+Lemma issued_snoc : forall h e, issued (h ++ [e]) = issued h ++ issued_by e.
+Proof. intros h e. unfold issued. rewrite flat_map_app. cbn [flat_map]. rewrite app_nil_r. reflexivity. Qed.
+
+Lemma f10_scan_snoc : forall p r h s rep giv e,
+  f10_scan p r s rep giv (h ++ [e]) =
+  (fst (f10_scan p r s rep giv h) || reportsb p e,
+   snd (f10_scan p r s rep giv h) ||
+   (fst (f10_scan p r s rep giv h) && givesb (fold_left step h s) e p r)).
+Proof.
+  intros p r h. induction h as [|x t IH]; intros s rep giv e; cbn [app f10_scan fold_left fst snd].
+  - reflexivity.
+  - apply IH.
+Qed.
+
+(* ------------------------------------------------------------------ single owner *)
+
+Theorem owner_map_is_function : forall h r p q,
+  In (r, p) (owner (run h)) -> In (r, q) (owner (run h)) -> p = q.
+Proof.
+  intros h r p q Hp Hq. pose proof (run_inv h) as Hinv.
+  apply (in_lookup _ _ _ Hinv) in Hp. apply (in_lookup _ _ _ Hinv) in Hq. congruence.
+Qed.
+
+Lemma memb_rids_carries : forall r v, memb r (rids_of v) = true <-> carries r v.
+Proof. intros r v. rewrite memb_in, carries_iff. tauto. Qed.
+
+Lemma memb_flat_carries : forall r vals,
+  memb r (flat_map rids_of vals) = true <-> exists v, In v vals /\ carries r v.
+Proof.
+  intros r vals. rewrite memb_in, in_flat_map. split; intros [v [Hin H]]; exists v; (split; [exact Hin|]);
+    apply carries_iff; exact H.
+Qed.
+
+Theorem owner_after_send : forall h sender target v r,
+  (carries r v -> lookup r (owner (run (h ++ [ESend sender target v]))) = Some target) /\
+  (~ carries r v -> lookup r (owner (run (h ++ [ESend sender target v]))) = lookup r (owner (run h))).
+Proof.
+  intros h sd t v r. rewrite run_snoc, (step_owner _ _ _ (run_inv h)). cbn [transferred].
+  destruct (memb r (rids_of v)) eqn:E.
+  - apply memb_rids_carries in E. split; [reflexivity|intro H; contradiction].
+  - split; [|reflexivity]. intro H. apply memb_rids_carries in H. congruence.
+Qed.
+
+Theorem owner_after_spawn : forall h caller vals r,
+  ((exists v, In v vals /\ carries r v) ->
+     lookup r (owner (run (h ++ [ESpawn caller vals]))) = Some (next_pid (run h))) /\
+  ((forall v, In v vals -> ~ carries r v) ->
+     lookup r (owner (run (h ++ [ESpawn caller vals]))) = lookup r (owner (run h))).
+Proof.
+  intros h c vals r. rewrite run_snoc, (step_owner _ _ _ (run_inv h)). cbn [transferred].
+  destruct (memb r (flat_map rids_of vals)) eqn:E.
+  - apply memb_flat_carries in E. split; [reflexivity|]. intro H. destruct E as [v [Hin Hc]].
+    exfalso. exact (H v Hin Hc).
+  - split; [|reflexivity]. intro H. apply memb_flat_carries in H. congruence.
+Qed.
+
+Theorem creator_is_first_owner : forall h p n r,
+  lookup r (owner (run (h ++ [EEffect p (Open n) (ANow (Some (VRes r)))]))) = Some p /\
+  lookup r (owner (run (h ++ [EComplete p (Some (VRes r))]))) = Some p.
+Proof.
+  intros h p n r. rewrite !run_snoc, !(step_owner _ _ _ (run_inv h)).
+  cbn [deniedb resource_id issued_by result_rid memb existsb]. rewrite N.eqb_refl. split; reflexivity.
+Qed.
+
+(* e, handled in state s, makes p the owner of r *)
+Definition gives (s : state) (e : event) (p : pid) (r : rid) : Prop :=
+  match e with
+  | ESend _ t v => t = p /\ carries r v
+  | ESpawn _ vals => next_pid s = p /\ exists v, In v vals /\ carries r v
+  | EEffect q _ _ | EComplete q _ => q = p /\ In r (issued_by e)
+  | _ => False
+  end.
+
+Lemma givesb_gives : forall s e p r, givesb s e p r = true <-> gives s e p r.
+Proof.
+  intros s e p r. destruct e as [q eff a|q res|c vals|sd t v|done|q|]; cbn [givesb gives transferred];
+    try (split; [discriminate|intros []]); rewrite andb_true_iff, N.eqb_eq.
+  - rewrite memb_in. tauto.
+  - rewrite memb_in. tauto.
+  - rewrite memb_flat_carries. tauto.
+  - rewrite memb_rids_carries. tauto.
+Qed.
+
+Lemma step_gives : forall s e p r, inv s ->
+  lookup r (owner (step s e)) = Some p -> lookup r (owner s) <> Some p -> gives s e p r.
+Proof.
+  intros s e p r Hinv Hnew Hold. rewrite (step_owner _ _ _ Hinv) in Hnew.
+  destruct e as [q eff a|q res|c vals|sd t v|done|q|]; cbn [gives]; try contradiction.
+  - destruct (deniedb s q eff); [contradiction|].
+    destruct (memb r (issued_by (EEffect q eff a))) eqn:E; [|contradiction].
+    apply memb_in in E. injection Hnew as ->. split; [reflexivity|exact E].
+  - destruct (memb r (issued_by (EComplete q res))) eqn:E; [|contradiction].
+    apply memb_in in E. injection Hnew as ->. split; [reflexivity|exact E].
+  - destruct (memb r (transferred (ESpawn c vals))) eqn:E; [|contradiction].
+    cbn [transferred] in E. apply memb_flat_carries in E. injection Hnew as <-. split; [reflexivity|exact E].
+  - destruct (memb r (transferred (ESend sd t v))) eqn:E; [|contradiction].
+    cbn [transferred] in E. apply memb_rids_carries in E. injection Hnew as ->. split; [reflexivity|exact E].
+  - destruct (lookup r (owner s)) as [o|]; [|discriminate].
+    destruct (existsb (N.eqb o) done); [discriminate|]. contradiction.
+Qed.
+
+Theorem ownership_changes_only_by : forall h e r,
+  lookup r (owner (run (h ++ [e]))) <> lookup r (owner (run h)) ->
+  match lookup r (owner (run (h ++ [e]))) with
+  | Some p => gives (run h) e p r
+  | None => exists done o, e = EResults done /\ lookup r (owner (run h)) = Some o /\ In o done
+  end.
+Proof.
+  intros h e r Hne. rewrite run_snoc in *. pose proof (run_inv h) as Hinv.
+  destruct (lookup r (owner (step (run h) e))) as [p|] eqn:Enew.
+  - apply (step_gives _ _ _ _ Hinv Enew). congruence.
+  - rewrite (step_owner _ _ _ Hinv) in Enew.
+    destruct e as [q eff a|q res|c vals|sd t v|done|q|]; try congruence.
+    + destruct (deniedb (run h) q eff); [congruence|].
+      destruct (memb r (issued_by (EEffect q eff a))); [discriminate|congruence].
+    + destruct (memb r (issued_by (EComplete q res))); [discriminate|congruence].
+    + destruct (memb r (transferred (ESpawn c vals))); [discriminate|congruence].
+    + destruct (memb r (transferred (ESend sd t v))); [discriminate|congruence].
+    + destruct (lookup r (owner (run h))) as [o|] eqn:Eo; [|congruence].
+      destruct (existsb (N.eqb o) done) eqn:Ex; [|congruence].
+      apply existsb_eqb_in in Ex. exists done, o. repeat split; [exact Ex].
+Qed.
+
+(* ------------------------------------------------------------------ only the owner reaches the backend *)
+
+Lemma exec_in_calls : forall s e p eff, inv s -> In (CExec p eff) (new_calls s e) ->
+  exists a, e = EEffect p eff a /\ deniedb s p eff = false.
+Proof.
+  intros s e p eff Hinv Hin. destruct (step_calls s e Hinv) as [_ Hc].
+  destruct e as [q eff' a|q res|c vals|sd t v|done|q|]; try (rewrite Hc in Hin; destruct Hin).
+  - rewrite Hc in Hin. destruct (deniedb s q eff') eqn:E; [destruct Hin|].
+    destruct Hin as [H|[]]. injection H as -> ->. exists a. split; [reflexivity|exact E].
+  - destruct Hc as [rs [Hc _]]. rewrite Hc in Hin. apply in_map_iff in Hin.
+    destruct Hin as [x [Hx _]]. discriminate.
+Qed.
+
+Theorem non_owner_never_reaches_backend : forall h e p eff r o,
+  In (CExec p eff) (new_calls (run h) e) -> resource_id eff = Some r ->
+  lookup r (owner (run h)) = Some o -> o = p.
+Proof.
+  intros h e p eff r o Hin Hr Ho. destruct (exec_in_calls _ _ _ _ (run_inv h) Hin) as [a [_ Hd]].
+  unfold deniedb in Hd. rewrite Hr, Ho in Hd. apply negb_false_iff in Hd. apply N.eqb_eq in Hd. exact Hd.
+Qed.
+
+Theorem denied_request_is_inert : forall h p r n a o,
+  lookup r (owner (run h)) = Some o -> o <> p ->
+  run (h ++ [EEffect p (Op r n) a]) = run h /\ new_calls (run h) (EEffect p (Op r n) a) = [].
+Proof.
+  intros h p r n a o Ho Hne. rewrite run_snoc.
+  assert (Hd : deniedb (run h) p (Op r n) = true).
+  { unfold deniedb. cbn [resource_id]. rewrite Ho. apply negb_true_iff. apply N.eqb_neq. exact Hne. }
+  split.
+  - cbn [step]. rewrite effect_request_unfold, Hd. reflexivity.
+  - destruct (step_calls (run h) (EEffect p (Op r n) a) (run_inv h)) as [_ Hc]. rewrite Hc, Hd. reflexivity.
+Qed.
+
+Theorem non_owner_never_reaches_backend_strong : forall h e p eff r,
+  ~ KnownF47 (h ++ [e]) ->
+  In (CExec p eff) (new_calls (run h) e) -> resource_id eff = Some r ->
+  lookup r (owner (run h)) = Some p.
+Proof.
+  intros h e p eff r Hk Hin Hr. destruct (exec_in_calls _ _ _ _ (run_inv h) Hin) as [a [-> Hd]].
+  destruct eff as [n|r' n]; [discriminate|]. injection Hr as ->.
+  unfold deniedb in Hd. cbn [resource_id] in Hd.
+  destruct (lookup r (owner (run h))) as [o|] eqn:Eo.
+  - apply negb_false_iff in Hd. apply N.eqb_eq in Hd. subst o. reflexivity.
+  - exfalso. apply Hk. unfold KnownF47. rewrite anyb_snoc. apply orb_true_iff. right.
+    cbn [stale_useb]. unfold absentb. fold (run h). rewrite Eo. reflexivity.
+Qed.
+
+(* ------------------------------------------------------------------ close_resource *)
+
+Lemma close_in_calls : forall s e r, inv s -> In (CClose r) (new_calls s e) ->
+  exists done p, e = EResults done /\ In p done /\ lookup r (owner s) = Some p.
+Proof.
+  intros s e r Hinv Hin. destruct (step_calls s e Hinv) as [_ Hc].
+  destruct e as [q eff' a|q res|c vals|sd t v|done|q|]; try (rewrite Hc in Hin; destruct Hin).
+  - rewrite Hc in Hin. destruct (deniedb s q eff'); [destruct Hin|]. destruct Hin as [H|[]]. discriminate.
+  - destruct Hc as [rs [Hc [Hrs _]]]. rewrite Hc in Hin. apply in_map_iff in Hin.
+    destruct Hin as [x [Hx Hin]]. injection Hx as ->. apply Hrs in Hin. destruct Hin as [p [Hp Hl]].
+    exists done, p. repeat split; assumption.
+Qed.
+
+Theorem close_only_in_cleanup_of_owner : forall h e r,
+  In (CClose r) (new_calls (run h) e) ->
+  exists done p, e = EResults done /\ In p done /\ lookup r (owner (run h)) = Some p.
+Proof. intros h e r. apply close_in_calls. apply run_inv. Qed.
+
+Theorem not_closed_while_owner_alive : forall h e r,
+  reports_only_terminated (h ++ [e]) -> In (CClose r) (new_calls (run h) e) ->
+  exists p, lookup r (owner (run h)) = Some p /\ In p (dead (run h)).
+Proof.
+  intros h e r Hwf Hin. destruct (close_only_in_cleanup_of_owner h e r Hin) as [done [p [-> [Hp Hl]]]].
+  exists p. split; [exact Hl|]. apply anyb_snoc_false in Hwf. destruct Hwf as [_ Hok].
+  cbn [early_reportb] in Hok. apply negb_false_iff in Hok. rewrite forallb_forall in Hok.
+  apply memb_in. exact (Hok p Hp).
+Qed.
+
+Theorem cleanup_closes_everything : forall h done p r,
+  In p done -> lookup r (owner (run h)) = Some p ->
+  In (CClose r) (new_calls (run h) (EResults done)) /\
+  forall r', lookup r' (owner (run (h ++ [EResults done]))) <> Some p.
+Proof.
+  intros h done p r Hp Hl. pose proof (run_inv h) as Hinv. split.
+  - destruct (step_calls (run h) (EResults done) Hinv) as [_ [rs [Hc [Hrs _]]]].
+    rewrite Hc. apply in_map. apply Hrs. exists p. split; assumption.
+  - intro r'. rewrite run_snoc, (step_owner _ _ _ Hinv).
+    destruct (lookup r' (owner (run h))) as [o|]; [|discriminate].
+    destruct (existsb (N.eqb o) done) eqn:Ex; [discriminate|].
+    intro H. injection H as ->. apply existsb_eqb_in in Hp. congruence.
+Qed.
+
+(* ------------------------------------------------------------------ closed at most once *)
+
+Lemma closes_app : forall a b, closes (a ++ b) = closes a ++ closes b.
+Proof. intros a b. unfold closes. apply flat_map_app. Qed.
+
+Lemma closes_map_close : forall rs, closes (map CClose rs) = rs.
+Proof. intro rs. induction rs as [|r t IH]; cbn; [reflexivity|]. f_equal. exact IH. Qed.
+
+(* what one step adds to the closed ids *)
+Lemma step_closes : forall s e, inv s ->
+  exists rs, closes (log (step s e)) = closes (log s) ++ rs /\ NoDup rs /\
+    forall r, In r rs <-> exists done p, e = EResults done /\ In p done /\ lookup r (owner s) = Some p.
+Proof.
+  intros s e Hinv. destruct (step_calls s e Hinv) as [Hlog Hc]. rewrite Hlog, closes_app.
+  destruct e as [q eff a|q res|c vals|sd t v|done|q|];
+    try (rewrite Hc; exists []; split; [reflexivity|]; split; [constructor|];
+         intro r; split; [intros []|intros [d [p [H _]]]; discriminate]).
+  - rewrite Hc. exists []. split; [destruct (deniedb s q eff); reflexivity|]. split; [constructor|].
+    intro r. split; [intros []|intros [d [p [H _]]]; discriminate].
+  - destruct Hc as [rs [Hc [Hrs Hnd]]]. rewrite Hc, closes_map_close. exists rs. split; [reflexivity|].
+    split; [exact Hnd|]. intro r. rewrite Hrs. split.
+    + intros [p [Hp Hl]]. exists done, p. repeat split; assumption.
+    + intros [d [p [Hd [Hp Hl]]]]. injection Hd as <-. exists p. split; assumption.
+Qed.
+
+Record cinv (I : list rid) (s : state) : Prop := mk_cinv {
+  ci_owned : forall r p, lookup r (owner s) = Some p -> In r I;
+  ci_closed : forall r, In r (closes (log s)) -> In r I;
+  ci_disj : forall r p, lookup r (owner s) = Some p -> ~ In r (closes (log s));
+  ci_nodup : NoDup (closes (log s))
+}.
+
+(* a binding present after a step was present before, or its id was just issued by the backend —
+   provided the step transfers no id that is absent from the map *)
+Lemma step_owner_dom : forall s e r p, inv s -> stale_transferb s e = false ->
+  lookup r (owner (step s e)) = Some p -> lookup r (owner s) <> None \/ In r (issued_by e).
+Proof.
+  intros s e r p Hinv Hst Hnew. rewrite (step_owner _ _ _ Hinv) in Hnew.
+  assert (Htr : memb r (transferred e) = true -> lookup r (owner s) <> None).
+  { intro Hm. apply memb_in in Hm. unfold stale_transferb in Hst.
+    destruct (lookup r (owner s)) eqn:E; [discriminate|]. exfalso.
+    assert (Hex : existsb (absentb s) (transferred e) = true).
+    { apply existsb_exists. exists r. split; [exact Hm|]. unfold absentb. rewrite E. reflexivity. }
+    congruence. }
+  destruct e as [q eff a|q res|c vals|sd t v|done|q|].
+  - destruct (deniedb s q eff); [left; congruence|].
+    destruct (memb r (issued_by (EEffect q eff a))) eqn:E; [right; apply memb_in; exact E|left; congruence].
+  - destruct (memb r (issued_by (EComplete q res))) eqn:E; [right; apply memb_in; exact E|left; congruence].
+  - destruct (memb r (transferred (ESpawn c vals))) eqn:E; [left; exact (Htr eq_refl)|left; congruence].
+  - destruct (memb r (transferred (ESend sd t v))) eqn:E; [left; exact (Htr eq_refl)|left; congruence].
+  - left. destruct (lookup r (owner s)); [discriminate|discriminate].
+  - left. congruence.
+  - left. congruence.
+Qed.
+
+Lemma issued_by_no_results : forall e r, In r (issued_by e) -> forall done, e <> EResults done.
+Proof. intros e r H done He. subst e. destruct H. Qed.
+
+Lemma cinv_step : forall I s e, inv s -> cinv I s -> NoDup (I ++ issued_by e) ->
+  stale_transferb s e = false -> cinv (I ++ issued_by e) (step s e).
+Proof.
+  intros I s e Hinv [Hown Hcl Hdisj Hnd] Hfresh Hst.
+  destruct (step_closes s e Hinv) as [rs [Hcs [Hrsnd Hrs]]].
+  assert (Hfr : forall r, In r (issued_by e) -> ~ In r I).
+  { intros r Hr HI. clear - Hfresh Hr HI. induction I as [|x t IH]; [destruct HI|].
+    cbn [app] in Hfresh. inversion Hfresh as [|? ? Hn Hf]; subst. destruct HI as [->|HI].
+    - apply Hn. apply in_or_app. right. exact Hr.
+    - exact (IH Hf HI). }
+  constructor.
+  - intros r p Hl. apply in_or_app.
+    destruct (step_owner_dom s e r p Hinv Hst Hl) as [H|H]; [|right; exact H].
+    left. destruct (lookup r (owner s)) as [o|] eqn:E; [exact (Hown r o E)|congruence].
+  - intros r Hr. rewrite Hcs in Hr. apply in_or_app. left. apply in_app_or in Hr. destruct Hr as [Hr|Hr].
+    + exact (Hcl r Hr).
+    + apply Hrs in Hr. destruct Hr as [d [p [_ [_ Hl]]]]. exact (Hown r p Hl).
+  - intros r p Hl Hr. rewrite Hcs in Hr. apply in_app_or in Hr.
+    destruct (step_owner_dom s e r p Hinv Hst Hl) as [H|H].
+    + destruct (lookup r (owner s)) as [o|] eqn:E; [|congruence]. destruct Hr as [Hr|Hr].
+      * exact (Hdisj r o E Hr).
+      * apply Hrs in Hr. destruct Hr as [d [q [-> [Hq Hlq]]]].
+        rewrite (step_owner _ _ _ Hinv), Hlq in Hl. apply existsb_eqb_in in Hq. rewrite Hq in Hl. discriminate.
+    + destruct Hr as [Hr|Hr].
+      * exact (Hfr r H (Hcl r Hr)).
+      * apply Hrs in Hr. destruct Hr as [d [q [He _]]]. exact (issued_by_no_results e r H d He).
+  - rewrite Hcs. apply nodup_app; [exact Hnd|exact Hrsnd|]. intros r H1 H2.
+    apply Hrs in H2. destruct H2 as [d [q [_ [_ Hl]]]]. exact (Hdisj r q Hl H1).
+Qed.
+
+Lemma nodup_app_l : forall (a b : list rid), NoDup (a ++ b) -> NoDup a.
+Proof.
+  intros a b. induction a as [|x t IH]; cbn [app]; intro H; [constructor|].
+  inversion H as [|? ? Hn Hd]; subst. constructor; [|exact (IH Hd)].
+  intro Hx. apply Hn. apply in_or_app. left. exact Hx.
+Qed.
+
+Lemma reachable_cinv : forall h, backend_fresh h -> ~ KnownF48 h -> cinv (issued h) (run h).
+Proof.
+  intro h. induction h as [|e h IH] using rev_ind; intros Hf Hk.
+  - constructor; cbn; try (intros; discriminate); try (intros ? []); constructor.
+  - unfold backend_fresh in Hf. rewrite issued_snoc in *. rewrite run_snoc.
+    assert (Hk' : anyb stale_transferb init (h ++ [e]) = false).
+    { unfold KnownF48 in Hk. destruct (anyb stale_transferb init (h ++ [e])); [exfalso; apply Hk; reflexivity|reflexivity]. }
+    apply anyb_snoc_false in Hk'. destruct Hk' as [Hkh Hke].
+    apply cinv_step; [apply run_inv| |exact Hf|exact Hke].
+    apply IH; [exact (nodup_app_l _ _ Hf)|]. unfold KnownF48. rewrite Hkh. discriminate.
+Qed.
+
+Theorem closed_at_most_once : forall h,
+  backend_fresh h -> ~ KnownF48 h -> NoDup (closes (log (run h))).
+Proof. intros h Hf Hk. exact (ci_nodup _ _ (reachable_cinv h Hf Hk)). Qed.
+
+(* ------------------------------------------------------------------ closed after termination *)
+
+Lemma reported_not_owner : forall h p r,
+  fst (f10_scan p r init false false h) = true -> snd (f10_scan p r init false false h) = false ->
+  lookup r (owner (run h)) <> Some p.
+Proof.
+  intros h p r. induction h as [|e h IH] using rev_ind; intros Hrep Hgiv.
+  - cbn in Hrep. discriminate.
+  - rewrite f10_scan_snoc in Hrep, Hgiv. cbn [fst snd] in Hrep, Hgiv. fold (run h) in Hgiv.
+    apply orb_false_elim in Hgiv. destruct Hgiv as [Hg1 Hg2]. rewrite run_snoc.
+    pose proof (run_inv h) as Hinv.
+    destruct (fst (f10_scan p r init false false h)) eqn:Erep.
+    + cbn [andb] in Hg2. specialize (IH eq_refl Hg1). intro Hnew.
+      pose proof (step_gives _ _ _ _ Hinv Hnew IH) as Hgives. apply givesb_gives in Hgives. congruence.
+    + cbn [orb] in Hrep. destruct e as [q eff a|q res|c vals|sd t v|done|q|]; try discriminate.
+      cbn [reportsb] in Hrep. apply memb_in in Hrep.
+      rewrite (step_owner _ _ _ Hinv). destruct (lookup r (owner (run h))) as [o|]; [|discriminate].
+      destruct (existsb (N.eqb o) done) eqn:Ex; [discriminate|]. intro H. injection H as ->.
+      apply existsb_eqb_in in Hrep. congruence.
+Qed.
+
+Theorem closed_after_termination : forall h p r,
+  ~ KnownF10 h p r -> In p (dead (run h)) -> lookup r (owner (run h)) <> Some p.
+Proof.
+  intros h p r Hk _. apply reported_not_owner.
+  - destruct (fst (f10_scan p r init false false h)) eqn:E; [reflexivity|]. exfalso. apply Hk. left. exact E.
+  - destruct (snd (f10_scan p r init false false h)) eqn:E; [|reflexivity]. exfalso. apply Hk. right. exact E.
+Qed.
+
+(* ------------------------------------------------------------------ who may transfer (F49) *)
+
+Definition initiates (e : event) (q : pid) (r : rid) : Prop :=
+  initiator e = Some q /\ In r (transferred e).
+
+Theorem ownership_leaves_only_by_owner_action : forall h e r o,
+  ~ KnownF49 (h ++ [e]) ->
+  lookup r (owner (run h)) = Some o -> lookup r (owner (run (h ++ [e]))) <> Some o ->
+  initiates e o r \/ (exists done, e = EResults done /\ In o done) \/ In r (issued_by e).
+Proof.
+  intros h e r o Hk Hold Hnew. rewrite run_snoc, (step_owner _ _ _ (run_inv h)) in Hnew.
+  assert (Hke : foreign_transferb (run h) e = false).
+  { unfold KnownF49 in Hk. rewrite anyb_snoc in Hk. fold (run h) in Hk.
+    destruct (foreign_transferb (run h) e); [exfalso; apply Hk; apply orb_true_r|reflexivity]. }
+  assert (Htr : forall q, initiator e = Some q -> memb r (transferred e) = true -> o = q).
+  { intros q Hq Hm. unfold foreign_transferb in Hke. rewrite Hq in Hke. apply memb_in in Hm.
+    destruct (N.eq_dec o q) as [->|Hne]; [reflexivity|]. exfalso.
+    assert (Hex : existsb (fun r0 => match lookup r0 (owner (run h)) with
+                                      | Some o0 => negb (N.eqb o0 q) | None => false end) (transferred e) = true).
+    { apply existsb_exists. exists r. split; [exact Hm|]. rewrite Hold. apply negb_true_iff. apply N.eqb_neq. exact Hne. }
+    congruence. }
+  destruct e as [q eff a|q res|c vals|sd t v|done|q|]; try congruence.
+  - destruct (deniedb (run h) q eff); [congruence|].
+    destruct (memb r (issued_by (EEffect q eff a))) eqn:E; [|congruence]. right. right. apply memb_in. exact E.
+  - destruct (memb r (issued_by (EComplete q res))) eqn:E; [|congruence]. right. right. apply memb_in. exact E.
+  - destruct (memb r (transferred (ESpawn c vals))) eqn:E; [|congruence]. left.
+    rewrite (Htr c eq_refl eq_refl). split; [reflexivity|apply memb_in; exact E].
+  - destruct (memb r (transferred (ESend sd t v))) eqn:E; [|congruence]. left.
+    rewrite (Htr sd eq_refl eq_refl). split; [reflexivity|apply memb_in; exact E].
+  - rewrite Hold in Hnew. destruct (existsb (N.eqb o) done) eqn:Ex; [|congruence].
+    right. left. exists done. split; [reflexivity|apply existsb_eqb_in; exact Ex].
+Qed.
+
+(* ------------------------------------------------------------------ refuted statements: witnesses
+   Each witness is the event sequence of a run of the REAL environment (harness qv_own) on the
+   Quiver program quoted above it. *)
+
+(* `p = @{ 0 __res_open__ =r, [r, 0] __res_use__ }, 5` : p is never awaited *)
+Definition witness_F10 : list event :=
+  [ESpawn 0 [VTuple []]; EEffect 1 (Open 0) (ANow (Some (VRes 1)));
+   EEffect 1 (Op 1 0) (ANow (Some VOther)); ETerminate 1; EOther].
+
+Theorem closed_after_termination_refuted :
+  exists h p r, reports_only_terminated h /\ backend_fresh h /\ quiescent (run h) /\
+                In p (dead (run h)) /\ lookup r (owner (run h)) = Some p /\ KnownF10 h p r.
+Proof.
+  exists witness_F10, 1, 1. repeat split; try reflexivity.
+  - unfold backend_fresh. vm_compute. constructor; [intros []|constructor].
+  - vm_compute. left. reflexivity.
+  - left. reflexivity.
+Qed.
+
+(* `b = @{ !#'m { =H[_] => Ok } }, r = 0 __res_open__, H[r] b, !b, [r, 0] __res_use__` :
+   the stale id 1 reaches backend.execute *)
+Definition witness_F47 : list event :=
+  [ESpawn 0 [VTuple []]; EEffect 0 (Open 0) (ANow (Some (VRes 1))); ESend 0 1 (VTuple [VRes 1]);
+   ETerminate 1; EOther; EResults [1]].
+
+Theorem non_owner_never_reaches_backend_unconditional_refuted :
+  exists h e p eff r, reports_only_terminated (h ++ [e]) /\
+    In (CExec p eff) (new_calls (run h) e) /\ resource_id eff = Some r /\
+    lookup r (owner (run h)) <> Some p /\ KnownF47 (h ++ [e]).
+Proof.
+  exists witness_F47, (EEffect 0 (Op 1 0) AFail), 0, (Op 1 0), 1. repeat split; try reflexivity.
+  - vm_compute. left. reflexivity.
+  - vm_compute. discriminate.
+Qed.
+
+(* `b = @{ !#'m { =H[_] => Ok } }, c = @{ !#'m { =H[_] => Ok } }, r = 0 __res_open__, H[r] b, !b, H[r] c, !c` :
+   close_resource(1) twice *)
+Definition witness_F48 : list event :=
+  [ESpawn 0 [VTuple []]; ESpawn 0 [VTuple []]; EEffect 0 (Open 0) (ANow (Some (VRes 1)));
+   ESend 0 1 (VTuple [VRes 1]); ETerminate 1; EOther; EResults [1];
+   ESend 0 2 (VTuple [VRes 1]); EOther; ETerminate 2; EResults []; EResults [2]].
+
+Theorem closed_at_most_once_unconditional_refuted :
+  exists h, reports_only_terminated h /\ backend_fresh h /\ KnownF48 h /\
+            ~ NoDup (closes (log (run h))).
+Proof.
+  exists witness_F48. repeat split; try reflexivity.
+  - unfold backend_fresh. vm_compute. constructor; [intros []|constructor].
+  - vm_compute. intro H. inversion H as [|? ? Hn _]; subst. apply Hn. left. reflexivity.
+Qed.
+
+(* `b = @{ !#'m {..use..}, !#'m {..} }, c = @{ !#'m { =H[_] => Ok } }, r = 0 __res_open__, H[r] b, H[r] c, ...` :
+   process 0, no longer the owner, moves resource 1 from its live owner 1 to process 2 *)
+Definition witness_F49 : list event :=
+  [ESpawn 0 [VTuple []]; ESpawn 0 [VTuple []]; EEffect 0 (Open 0) (ANow (Some (VRes 1)));
+   ESend 0 1 (VTuple [VRes 1]); EEffect 1 (Op 1 0) (ANow (Some VOther))].
+
+Theorem transfer_only_by_owner_refuted :
+  exists h e q r o, initiates e q r /\ lookup r (owner (run h)) = Some o /\ o <> q /\
+                    ~ In o (dead (run h)) /\ lookup r (owner (run (h ++ [e]))) <> Some o /\
+                    KnownF49 (h ++ [e]).
+Proof.
+  exists witness_F49, (ESend 0 2 (VTuple [VRes 1])), 0, 1, 1. repeat split; try reflexivity.
+  - vm_compute. left. reflexivity.
+  - discriminate.
+  - vm_compute. intros [].
+  - vm_compute. discriminate.
+Qed.
+
+(* ------------------------------------------------------------------ non-vacuity *)
+
+(* three processes, a handle nested in a closure inside a tuple, transferred twice, its last owner
+   reported: none of the known classes, all hypotheses hold, and the resource is closed once *)
+Definition good_history : list event :=
+  [ESpawn 0 [VTuple []]; EEffect 0 (Open 1) AAsync; EComplete 0 (Some (VRes 1));
+   ESend 0 1 (VTuple [VTuple [VFun [VRes 1]; VOther]]);
+   EEffect 1 (Op 1 0) (ANow (Some VOther)); EEffect 0 (Op 1 4) AFail;
+   ESpawn 1 [VFun [VRes 1]; VTuple []]; ETerminate 1; EEffect 2 (Op 1 0) (ANow (Some VOther));
+   ETerminate 2; EResults [2]; EResults [1]].
+
+Example good_history_meets_all_hypotheses :
+  reports_only_terminated good_history /\ backend_fresh good_history /\
+  ~ KnownF47 good_history /\ ~ KnownF48 good_history /\ ~ KnownF49 good_history /\
+  ~ KnownF10 good_history 2 1 /\ In 2 (dead (run good_history)) /\
+  closes (log (run good_history)) = [1] /\
+  log (run good_history) = [CExec 0 (Open 1); CExec 1 (Op 1 0); CExec 2 (Op 1 0); CClose 1].
+Proof.
+  repeat split; try reflexivity.
+  - unfold backend_fresh. vm_compute. constructor; [intros []|constructor].
+  - vm_compute. discriminate.
+  - vm_compute. discriminate.
+  - vm_compute. discriminate.
+  - vm_compute. intros [H|H]; discriminate.
+  - vm_compute. left. reflexivity.
+Qed.
+
+(* the denied request of the old owner (process 0 after the send) is in good_history: *)
+Example good_history_has_denied_use :
+  exists h1 h2, good_history = h1 ++ EEffect 0 (Op 1 4) AFail :: h2 /\
+                lookup 1 (owner (run h1)) = Some 1 /\ new_calls (run h1) (EEffect 0 (Op 1 4) AFail) = [].
+Proof.
+  exists (firstn 5 good_history), (skipn 6 good_history). repeat split; reflexivity.
+Qed.
+
+Example close_example :
+  In (CClose 1) (new_calls (run (firstn 10 good_history)) (EResults [2])) /\
+  lookup 1 (owner (run (firstn 10 good_history))) = Some 2.
+Proof. split; [vm_compute; left; reflexivity|reflexivity]. Qed.
